@@ -245,8 +245,17 @@ func runC17(t *Trace, r *Rng, tier string, _ []string) {
 			}
 			if r.Chance(30) {
 				f := bleve.NewFacetRequest("d0", 2)
-				f.AddDateTimeRange("early", time.Time{}, c02Base.Add(3*time.Hour))
-				f.AddDateTimeRange("late", c02Base.Add(3*time.Hour), time.Time{})
+				if r.Bool() {
+					f.AddDateTimeRange("early", time.Time{}, c02Base.Add(3*time.Hour))
+					f.AddDateTimeRange("late", c02Base.Add(3*time.Hour), time.Time{})
+				} else {
+					// the same buckets given as date strings (what a request parsed from JSON holds), open at either end
+					mid := c02Base.Add(3 * time.Hour).Format(time.RFC3339)
+					end := c02Base.Add(5 * time.Hour).Format(time.RFC3339)
+					f.AddDateTimeRangeString("early", nil, &mid)
+					f.AddDateTimeRangeString("middle", &mid, &end)
+					f.AddDateTimeRangeString("late", &end, nil)
+				}
 				req.AddFacet("fd", f)
 				fnames = append(fnames, "fd")
 			}
